@@ -1,7 +1,8 @@
 ------------------------------ MODULE Ind_Valve ------------------------------
 (* X05 - Valve.tla under Apalache: the actions are those of the original module (INSTANCE, not
    restated); moving time, clock and the time steps are UNBOUNDED integers (MC_Valve: moving
-   times {0, 1, 3}, steps 1..2, clock <= 8).  TypeOK /\ CoilFollows /\ NeverStuck is inductive as
+   times {0, 1, 3}, steps 1..2, clock <= 8); the configuration (moving time, safe state) may be
+   changed by the environment at any time.  TypeOK /\ CoilFollows /\ NeverStuck is inductive as
    it stands; ErrorReaction is checked as an action invariant from every IndInv state.         *)
 EXTENDS Integers
 
@@ -34,6 +35,8 @@ Next == \/ \E v \in BOOLEAN : V!SetTarget(v)
         \/ \E o, c \in BOOLEAN : V!Switches(o, c)
         \/ \E dt \in Nat : V!Advance(dt)
         \/ \E conf \in BOOLEAN : V!Update(conf)
+        \/ \E m \in Nat : V!SetMovingTime(m)
+        \/ \E s \in BOOLEAN : V!SetSafeState(s)
 
 IndInv == /\ mt \in Nat /\ clock \in Nat /\ lastGood \in Nat
           /\ V!TypeOK /\ V!CoilFollows /\ V!NeverStuck
